@@ -2808,9 +2808,21 @@ func (ir *iteratorRecord) iterate(step func(Value)) {
 			step(value)
 		})
 		if ret != nil {
-			_ = tryFunc(func() {
-				ir.returnIter()
-			})
+			switch ret.(type) {
+			case *Exception, Value:
+				// IteratorClose with a throw completion: what return() throws is ignored in favour of the original exception,
+				// but an interrupt, a stack overflow or a foreign Go panic raised there is not an exception to ignore
+				if ret2 := tryFunc(func() {
+					ir.returnIter()
+				}); ret2 != nil {
+					switch ret2.(type) {
+					case *Exception, Value:
+					default:
+						panic(ret2)
+					}
+				}
+			}
+			// (an uncatchable condition closes nothing)
 			panic(ret)
 		}
 	}
